@@ -577,3 +577,15 @@ M('c01-pattern-text-fstring-quoted', 'C01', 'R9', F,
   "            f\"{_TAB_STR * indentation}match = patterns[{self._pattern_idx}].match(path[{self._segment_idx}]); pattern = '{self._pattern_text}'\",\n")
 # negative controls (exit 0): k1-c01-3 (seven src() methods as f-strings, `indent` local); the literal as
 # f"{indent}if path[{self._segment_idx}] == {self._literal!r}:\n{...}" and with {repr(self._literal)}
+
+# R5 (k2-c19-2): a same-class helper that rebinds the side tables and is used by _compile only is read where it is called;
+# calling it again after the generator has filled the tables hands later lookups empty tables
+RESET_BLOCK = "        self._return_values = []\n        self._patterns = []\n        self._converters = []\n\n        self._ast = _CxParent()\n"
+RESET_HELPER = ("    def _reset_compiled_state(self) -> None:\n        self._return_values = []\n        self._patterns = []\n"
+                "        self._converters = []\n\n        self._ast = _CxParent()\n\n")
+M2('c01-table-reset-helper-called-after-generation', 'C01', 'R5', [
+    {'file': F, 'old': RESET_BLOCK + "        self._generate_ast(\n            self._roots, self._ast, self._return_values, self._patterns, params_stack=[]\n        )\n",
+     'new': "        self._reset_compiled_state()\n        self._generate_ast(\n            self._roots, self._ast, self._return_values, self._patterns, params_stack=[]\n        )\n"
+            "        ast_root = self._ast\n        self._reset_compiled_state()\n        self._ast = ast_root\n"},
+    {'file': F, 'old': "    def _instantiate_converter(\n", 'new': RESET_HELPER + "    def _instantiate_converter(\n"}], also=('C19',))
+# negative control (exit 0): k2-c19-2 (the block moved verbatim into the helper, called once before _generate_ast)
